@@ -1021,3 +1021,115 @@ func ruleC09R6(c *Ctx) {
 		"the raw line is clipped before the parser sees it: the parser then finds less message than was sent — a message within the limit loses its tail, an over-long one is cut below the limit, and neither is counted as overflow")
 	c.floor("C09.R6", "copies of the input line in NewRecord", n, 1)
 }
+
+// ---- C09.R7 (added after seed c09g): the tokenizer consumes exactly the delimiter. Where the header is split at the index
+// of a space (strings.IndexByte), the token is x[:i] and the remainder x[j:], the engine must prove j = i + 1: every byte
+// of the line is part of a token or is the one delimiter between two tokens. "A run of spaces is one delimiter" eats the
+// leading spaces of the message, which is the last "token". strings.Cut with a one-byte separator is the same by
+// definition of the library (delegated).
+func init() {
+	register("C09", "C09.R7", ruleC09R7)
+}
+
+func ruleC09R7(c *Ctx) {
+	pr := newProver(c)
+	n := 0
+	for _, fn := range c.P.universe {
+		if relPkg(fnPkgPath(fn)) != "input/syslogparser" {
+			continue
+		}
+		for _, site := range callsIn(fn) {
+			f := site.Common().StaticCallee()
+			if f == nil {
+				continue
+			}
+			switch extName(f) {
+			case "strings.Cut", "bytes.Cut":
+				if k, ok := site.Common().Args[1].(*ssa.Const); ok && k.Value != nil && len(constant.StringVal(k.Value)) == 1 {
+					n++
+					c.ok("C09.R7", fn, "token split by strings.Cut with a one-byte separator", site.Pos(), "delegated to the library: before, separator, after")
+				}
+				continue
+			case "strings.IndexByte", "bytes.IndexByte":
+			default:
+				continue
+			}
+			idx, ok := site.(*ssa.Call)
+			if !ok {
+				continue
+			}
+			x := strip(site.Common().Args[0])
+			var heads, tails []*ssa.Slice
+			eachInstr(fn, func(in ssa.Instruction) {
+				sl, ok := in.(*ssa.Slice)
+				if !ok || strip(sl.X) != x {
+					return
+				}
+				uses := func(v ssa.Value) bool {
+					return v != nil && mentions(v, func(y ssa.Value) bool { return y == ssa.Value(idx) })
+				}
+				if sl.High != nil && uses(sl.High) && (sl.Low == nil || !uses(sl.Low)) {
+					heads = append(heads, sl)
+				}
+				if sl.Low != nil && uses(sl.Low) && sl.High == nil {
+					tails = append(tails, sl)
+				}
+			})
+			for _, h := range heads {
+				for _, t := range tails {
+					n++
+					okEq := pr.prove(fn, t, valT(t.Low), valT(h.High), 1, nil) && pr.prove(fn, t, valT(h.High), valT(t.Low), -1, nil)
+					c.check(okEq, "C09.R7", fn, "the remainder starts one byte after the token: "+canonOf(h)+" / "+canonOf(t), t.Pos(),
+						"proved: low bound of the remainder = high bound of the token + 1",
+						"the remainder "+canonOf(t)+" is not shown to start exactly one byte after the token "+canonOf(h)+": bytes of the line between two tokens are dropped (or kept twice) — the message, which is the last remainder, loses its leading spaces")
+				}
+			}
+		}
+	}
+	c.floor("C09.R7", "token splits at a delimiter index", n, 1)
+}
+
+// ---- C15.R9 (= C09.R8, added after seed c15e): the UTF-8 cleaner is delegated. Whether a byte sequence is valid UTF-8 is
+// value-level; the claims of C15.R3 and C09.R2 ("what is cut passes through the cleaner") rest on util.CleanUTF8 handing
+// the part it does not keep as it is to the library (strings.ToValidUTF8 / bytes.ToValidUTF8). A cleaner that decides
+// lead and continuation bytes itself fails as UNDECIDED — also a correct one.
+func init() {
+	register("C15", "C15.R9", ruleCleanerDelegated)
+	register("C09", "C15.R9", ruleCleanerDelegated)
+}
+
+func ruleCleanerDelegated(c *Ctx) {
+	fn := c.P.Fn("util.CleanUTF8")
+	param := ssa.Value(fn.Params[0])
+	isLib := func(v ssa.Value) bool {
+		cl, ok := v.(*ssa.Call)
+		if !ok || cl.Common().StaticCallee() == nil {
+			return false
+		}
+		switch extName(cl.Common().StaticCallee()) {
+		case "strings.ToValidUTF8", "bytes.ToValidUTF8":
+			return c.mentionsR(fn, cl.Common().Args[0], func(y ssa.Value) bool { return y == param }, 0)
+		}
+		return false
+	}
+	n := 0
+	for _, rv := range returnedValues(fn, 0) {
+		n++
+		if c.mentionsR(fn, rv.Val, isLib, 0) {
+			c.ok("C15.R9", fn, "the cleaned bytes come from the library's ToValidUTF8", rv.At.Pos(), "the returned value derives from strings/bytes.ToValidUTF8 applied to (a part of) the input")
+			continue
+		}
+		// the input itself, only when it is empty
+		okEmpty := false
+		if strip(rv.Val) == param {
+			for b, si := range emptinessGuardEdges(fn, map[ssa.Value]bool{param: true}) {
+				if c.onlyViaEdge(fn, rv.At, b, si) {
+					okEmpty = true
+				}
+			}
+		}
+		c.check(okEmpty, "C15.R9", fn, "the cleaned bytes come from the library's ToValidUTF8", rv.At.Pos(), "the empty input is returned as it is",
+			"UNDECIDED (counts as failure): CleanUTF8 returns bytes that did not pass strings/bytes.ToValidUTF8 — which bytes form a complete UTF-8 sequence is decided by the module itself, and this family does not decide that; the clauses 'a cut value is cleaned' (C15.R3, C09.R2) rested on the delegation")
+	}
+	c.floor("C15.R9", "returns of CleanUTF8", n, 1)
+}
